@@ -15,7 +15,7 @@ EXPLANATION = ("S1-S12 every request builder is abstractly evaluated (path-sensi
                "requests the library issues on its own (follow-up pages of the paging adapter) carry exactly the saved controls plus the "
                "paging control and leave the saved controls as they were (C16's rules); S16 the Filter inside a SearchRequest / an Assertion or "
                "MatchedValues control value is what the filter string says (C08's P3 / P4 shapes, P1.entry whole input, P8 every text slot "
-               "holds exactly the bytes its grammar rule consumed - attribute description with all its options, matching rule name); S17 the BER writer (C07's rules). "
+               "holds exactly the bytes its grammar rule consumed - attribute description with all its options, matching rule name); S17 the BER writer (C07's rules); S18 the requestValue of an extended operation built from a typed request (C19's X.value for the `From<..> for Exop` encoders, once per member of each encoder's input partition). "
                "Not decided: that lber serialises a shape into the right bytes (C07); values of arbitrary size.")
 TRUSTED = ['lber serialises shapes faithfully (C07)', 'RFC 4511 shapes transcribed in rules/props/C02.py']
 UNDECIDED = ['byte-level serialisation (C07)', 'arbitrary value sizes']
@@ -30,7 +30,14 @@ SHARED = [# S16 stands for the clause "... reads back exactly the requested oper
           # the one place where the library itself attaches controls to requests the caller did not spell out: every follow-up Search of
           # the paging adapter carries exactly the controls saved when the search started plus one paging control, and issuing it leaves
           # the saved controls / options as they were (nothing leaks from one exchange into the next)
-          ('C16', ('A2.follow-up-controls', 'A2.saved-state-unchanged'), 'M5.paged-follow-up-carries-the-saved-controls')]
+          ('C16', ('A2.follow-up-controls', 'A2.saved-state-unchanged'), 'M5.paged-follow-up-carries-the-saved-controls'),
+          # S18 stands for the clause "the bytes written ... read back as exactly the requested operation" for `extended`: S.request-shape
+          # decides that the ExtendedRequest carries `exop.val` as requestValue [1]; what the caller asked for is the typed request
+          # (`extended<E: Into<Exop>>(PasswordModify {..})`), and the octets of the requestValue are built by E's `From<E> for Exop`: for every
+          # member of the input partition of every Exop encoder (each Option field Some / None x each bool field true / false) the
+          # emitted value is the one the defining RFC prescribes for that member - component order, tag numbers, which field feeds
+          # which component (seed C02l: PasswordModify components numbered by their position among the PRESENT fields)
+          ('C19', ('X.value.exop',), 'S18.extended-request-value')]
 
 SELF = ('param', 'self')
 LDAP = 'ldap3::ldap::Ldap::'
